@@ -454,6 +454,35 @@ def tr_parse(fn: ast.FunctionDef) -> dict:
         guards.append(guarded)
     out['replace_guards'] = guards
     out['replace_lines'] = [n.lineno for n in reps]
+
+    # --- single_block early return `return root[0]` at a closing brace: is root tested for a child first?
+    def returns_root0(n: ast.If) -> bool:
+        return any(isinstance(x, ast.Return) and isinstance(x.value, ast.Subscript) and isinstance(x.value.value, ast.Name)
+                   and isinstance(x.value.slice, ast.Constant) and x.value.slice.value == 0 for x in n.body)
+    sbs = [n for n in ast.walk(fn) if isinstance(n, ast.If) and returns_root0(n)]
+    if len(sbs) != 1:
+        raise _err(fn, f'expected one `return root[0]` site, found {len(sbs)}')
+    t = sbs[0].test
+    ops = t.values if isinstance(t, ast.BoolOp) and isinstance(t.op, ast.And) else [t]
+    root_name = next(x.value.value.id for x in sbs[0].body if isinstance(x, ast.Return))
+    base, extra = 0, []
+    for v in ops:
+        if _is_name(v, 'single_block'):
+            base += 1
+        elif isinstance(v, ast.Compare) and len(v.ops) == 1 and isinstance(v.ops[0], ast.Is) \
+                and _is_name(v.left, 'cur_block') and _is_name(v.comparators[0], root_name):
+            base += 1
+        else:
+            extra.append(v)
+    if base != 2:
+        raise _err(sbs[0], 'single_block return is not guarded by `single_block and cur_block is root`')
+    if not extra:
+        out['single_block_guard'] = False
+    elif len(extra) == 1 and isinstance(extra[0], ast.Attribute) and extra[0].attr == '_value' \
+            and _is_name(extra[0].value, root_name):
+        out['single_block_guard'] = True
+    else:
+        raise _err(sbs[0], 'unrecognised extra condition on the single_block return')
     return out
 
 
@@ -569,7 +598,8 @@ def translate() -> tuple[str, dict]:
          'Definition gen_parsecfg : parsecfg := {|',
          f'  p_key_break := {coq_brk(psites["key_break"])};',
          f'  p_value_break := {coq_brk(psites["value_break"])};',
-         f'  p_replace_guard := {"true" if all(psites["replace_guards"]) else "false"} |}}.', '',
+         f'  p_replace_guard := {"true" if all(psites["replace_guards"]) else "false"};',
+         f'  p_single_block_guard := {"true" if psites["single_block_guard"] else "false"} |}}.', '',
          '(* f-strings yielded by the deprecated Keyvalues.export() *)',
          'Definition gen_export_yields : list (list piece) := [' + '; '.join(coq_pieces(p) for _, p in yields) + '].', '',
          '(* line numbers of stores to / mutating calls on tree objects inside serialise, _serialise, export *)',
